@@ -103,5 +103,21 @@ def chain_cancel(f_outer, f_inner):
     )
 
 
+def notify_cancel(f_outer):
+    # A plain Future which gets cancelled only wakes up result()/exception();
+    # users of concurrent.futures.wait()/as_completed() are notified by
+    # set_running_or_notify_cancel(), which nobody else will call on the
+    # output of a combinator.
+    def notify(f):
+        if f.cancelled():
+            try:
+                f.set_running_or_notify_cancel()
+            except RuntimeError:
+                # already notified
+                pass
+
+    f_outer.add_done_callback(notify)
+
+
 def wrap(f):
     return EXECUTOR.flat_bind(lambda: f)
